@@ -72,10 +72,10 @@ def parse_vspec(path):
             tags = []
             name = None
             # optional numeric arg
-            mm = re.match(r"^(\d+)\s*(.*)$", rest)
+            mm = re.match(r"^(\d+|\*)\s*(.*)$", rest)
             if mm and kind in ("loop", "inv", "invxb", "loopensures", "loopdec", "body-start", "body-end",
                                "before", "after", "replace"):
-                arg = int(mm.group(1))
+                arg = 0 if mm.group(1) == "*" else int(mm.group(1))
                 rest = mm.group(2).strip()
             mt = re.match(r"^\[([^\]]*)\]\s*(.*)$", rest)
             if mt:
@@ -172,9 +172,13 @@ def find_anchor(toks, anchor, nth):
     for i in range(len(sigs) - len(at) + 1):
         if all(toks[sigs[i + j]].text == at[j] for j in range(len(at))):
             hits.append((sigs[i], sigs[i + len(at) - 1] + 1))
+    if nth == 0:
+        if not hits:
+            raise ExtractError("lost anchor `%s` (found 0)" % anchor)
+        return hits
     if len(hits) < nth:
         raise ExtractError("lost anchor `%s` #%d (found %d)" % (anchor, nth, len(hits)))
-    return hits[nth - 1]
+    return [hits[nth - 1]]
 
 
 def find_loops(toks, a, b):
@@ -329,11 +333,11 @@ def weave_function(src_fn, spec, path, W, opts, meta):
             for c in [c for c in spec.of("body-end") if c.arg == n]:
                 add(lc, "\n" + c.body + "\n")
         for c in spec.of("before"):
-            (a, b) = find_anchor(toks[:body_close + 1], c.name, c.arg or 1)
-            add(a, "\n" + c.body + "\n", ob("hint", c) if c.tags else None)
+            for hn, (a, b) in enumerate(find_anchor(toks[:body_close + 1], c.name, 1 if c.arg is None else c.arg), 1):
+                add(a, "\n" + c.body + "\n", ob("hint", c, {"name": "%s#%d" % (c.name, hn)}) if c.tags else None)
         for c in spec.of("after"):
-            (a, b) = find_anchor(toks[:body_close + 1], c.name, c.arg or 1)
-            add(b, "\n" + c.body + "\n", ob("hint", c) if c.tags else None)
+            for hn, (a, b) in enumerate(find_anchor(toks[:body_close + 1], c.name, 1 if c.arg is None else c.arg), 1):
+                add(b, "\n" + c.body + "\n", ob("hint", c, {"name": "%s#%d" % (c.name, hn)}) if c.tags else None)
         if opts.get("vacuity"):
             add(body_close, "\n    assert(false); // VACUITY-PROBE fn-end\n",
                 {"fn": path, "kind": "vacuity", "name": "fn-end", "tags": [], "text": ""})
@@ -542,6 +546,8 @@ def build(repo, contracts_dir, out_dir, vacuity=False, only=None):
             sp = specs.get(p) or FnSpec(p, "-")
             for a in sp.attrs:
                 W.emit("    " + a + "\n")
+            if p in cfg.get("external_body", {}):
+                W.emit("    #[verifier::external_body] // ASSUMED: %s\n" % cfg["external_body"][p])
             woven, obs = weave_function(txt, sp, p, W, {"vacuity": vacuity}, None)
             base = W.line
             sobs = site_obligations(p, woven, contracted_names)
